@@ -259,6 +259,8 @@ SRC_MODULES = {
     "Anonymongo.Src.blkLoop": "Command", "Anonymongo.Src.blkLoopG": "Command", "Anonymongo.Src.opsLoop": "Command",
     "Anonymongo.Src.RedactMongoLog_eq": "Line", "Anonymongo.Src.RedactMongoLog_eq_gen": "Line", "Anonymongo.Src.RedactMongoLog_err": "Line",
     "Anonymongo.Src.k12_eq": "Line", "Anonymongo.Src.k3_eq_obj": "Line", "Anonymongo.Src.attrFrom12_model": "Line", "Anonymongo.Src.Gen_ipPH": "Line",
+    "Anonymongo.Src.RedactMongoLog_returns": "EndToEnd", "Anonymongo.Src.C04_src": "EndToEnd", "Anonymongo.Src.C01_remote_src": "EndToEnd",
+    "Anonymongo.Src.witness_callees": "EndToEnd",
     "Anonymongo.Src.ReadKeyFromFile_eq": "Key", "Anonymongo.Src.ReadKeyFromFile_accepts": "Key",
     "Anonymongo.Src.HashName_eq": "Hash", "Anonymongo.Src.trimLeftCutset_dollar": "Hash",
     "Anonymongo.Src.redactQueryValues_eq": "Walk", "Anonymongo.Src.redactArrayValuesWithKey_eq": "Walk", "Anonymongo.Src.redactArrayValues_eq": "Walk",
@@ -276,8 +278,8 @@ _LINE = ["Anonymongo.Src.RedactMongoLog_eq", "Anonymongo.Src.RedactMongoLog_eq_g
 _CMD = ["Anonymongo.Src.redactCommand_eq", "Anonymongo.Src.blkInner", "Anonymongo.Src.blkLoopG", "Anonymongo.Src.opsLoop"]
 _DISP = ["Anonymongo.Src.redactOperation_eq", "Anonymongo.Src.redactOperation_seq", "Anonymongo.Src.seqOp_map", "Anonymongo.Src.seqVal_eq"]
 SRC_THEOREMS = {
-    "C01": _LEAF + ["Anonymongo.Src.isInSearchStage_eq"] + _WALK + _DISP + _CMD + _LINE,
-    "C04": _DISP + _CMD + _LINE,
+    "C01": _LEAF + ["Anonymongo.Src.isInSearchStage_eq"] + _WALK + _DISP + _CMD + _LINE + ["Anonymongo.Src.C01_remote_src", "Anonymongo.Src.witness_callees"],
+    "C04": _DISP + _CMD + _LINE + ["Anonymongo.Src.RedactMongoLog_returns", "Anonymongo.Src.C04_src", "Anonymongo.Src.witness_callees"],
     "C06": _LINE,
     "C02": _LEAF + _WALK,
     "C03": ["Anonymongo.Src.redactScalarValue_eq"] + _WALK,
@@ -308,7 +310,10 @@ SRC_NOTE = ("; SOURCE-LEVEL (tools/gotr, Generated/Src.lean, Props/Src/*): the l
             "returns, for every operation document without duplicate keys, the model's redactOperation: which keys open a zone (query, filter, sort, update, updates, deletes, "
             "arrayFilters, q, u, updateMods, document / documents under insert, pipeline), with which walker, every other key untouched; the stage walker is a parameter there; "
             "redactQueryValues / redactArrayValuesWithKey: as said for every document, at every nesting depth, given fuel beyond "
-            "key-path length + twice the depth); the stage walker redactPipelineStage remains hand-modelled and corresponded")
+            "key-path length + twice the depth); the stage walker redactPipelineStage remains hand-modelled and corresponded; "
+            "Props/Src/EndToEnd(Shape): C04_src, C01_remote_src (and, thorough tier, C03_src, C19_src) restate the line-level property theorems about the TRANSLATED "
+            "RedactMongoLog with the regenerated tables - hypotheses: the untranslated callees (stage walker, plan-summary rewriter, JSON reader) behave as modelled; "
+            "witness_callees shows the hypotheses satisfiable")
 for _p, _ts in SRC_THEOREMS.items():
     _s = PROPS[_p]
     _s["theorems"] = _s["theorems"] + [t for t in dict.fromkeys(_ts) if t not in _s["theorems"]]
@@ -317,6 +322,13 @@ for _p, _ts in SRC_THEOREMS.items():
         _m = "Anonymongo.Props.Src." + SRC_MODULES[_t]
         if _m not in _s.setdefault("extra_modules", []):
             _s["extra_modules"].append(_m)
+
+# thorough tier only: the shape / idempotence theorems restated about the translated RedactMongoLog (Props/Src/EndToEndShape).  The quick tier
+# of C03 and C19 does not depend on the refinement proofs of the dispatch functions, so that a rewrite of those leaves it alone.
+PROPS["C03"]["thorough_theorems"] = ["Anonymongo.Src.C03_src", "Anonymongo.Src.RedactMongoLog_returns", "Anonymongo.Src.witness_callees"]
+PROPS["C03"]["thorough_modules"] = ["Anonymongo.Props.Src.EndToEndShape"]
+PROPS["C19"]["thorough_theorems"] = ["Anonymongo.Src.C19_src", "Anonymongo.Src.RedactMongoLog_returns", "Anonymongo.Src.witness_callees"]
+PROPS["C19"]["thorough_modules"] = ["Anonymongo.Props.Src.EndToEndShape"]
 
 # the two fixed regular expressions are the ones the model's recognisers were written for (e-mail class: C01, C05; plan summary: C15, C13)
 for _p in ["C01", "C05", "C13", "C15"]:
